@@ -34,6 +34,14 @@ tuple, iterator and generator with 1-9 (40) distinct scores, ascending / descend
      docids the big operand lacks - needs a tiny operand with weight != 1 and a docid outside the big one
   10 addmany de-duplicates a list / tuple of > 128 pairs through dict(sequence) - needs an item twice in a big batch
   Replays of big cases are shrunk by halving chunks of entries (the seed replays end at 33 entries vs 1, 129 pairs).
+Round 4: 7% of all cases are `big` NBest sessions (213 per quick run: ulp 67, timestamps 59, mixed 30, negative 25,
+beyond-double 32): INTEGER scores a C double cannot tell apart (neighbours above 2**53 / 2**63 / 2**80, nanosecond
+timestamps 1-100 ns apart, their negatives, small ints mixed with 2**53+k) or cannot hold (10**310+k), arriving
+ascending / descending / randomly, every third one handed over as a float when a float holds exactly that value; the
+scores that come back are compared as exact values (5.0 == 5, but 2**53+3 must stay 2**53+3); 143 of the cases hold
+two different scores with the same double.  The driver's NBest scores are Lean `Int` (unbounded), the theorems hold for
+any linear order.  Seeded C17_H (scores in array('d')) was missed before and is caught now; one more of the class,
+VIOLATION on quick seed 0:  F  addmany bisects with `float(score)`.
   `bisect <x> <scores>` compares the model's binary search (`NBest.bisectLeft`, theorem `c17_bisect_left`) with
   CPython's `bisect.bisect_left` (a trusted-base definition checked on every run); mutation 4 re-run after the
   addition: still caught.
@@ -799,7 +807,9 @@ RULE = ("60% set-algebra cases: 1-3 operand lists of 0-6 IF maps (0-18 keys from
         "compared exactly and 30% arbitrary float32 scores compared with rel. tol. 2e-6; 40% NBest sessions: "
         "capacity 1-8 (and N<1), 3-30 (thorough 80) add/addmany/pop_smallest/getbest/len calls with scores "
         "from a pool of 1-9 values (heavy ties), scores as ints or as k/8 floats, addmany given a list / tuple / "
-        "iterator / generator. 7% of the set-algebra cases are `bigsmall`: 1-3 maps of 1-8 keys and 1-2 maps of "
+        "iterator / generator; 7% of all cases NBest sessions with big integer scores (neighbours above 2**53, "
+        "nanosecond timestamps, negatives, beyond the double range; ints and exact floats mixed; returned scores "
+        "compared exactly). 7% of the set-algebra cases are `bigsmall`: 1-3 maps of 1-8 keys and 1-2 maps of "
         "300-1500 (12%: 3000; thorough also 2000) keys sharing a core of 1-8 docids, dyadic scores with exactly 0.0 "
         "and negative values (45% of the core entries of a big map), every order of 3 operands (4-5 random orders "
         "of more), a None operand added in 30%; a third of the ordinary dyadic cases also draw 0.0 / negative "
